@@ -581,6 +581,15 @@ def coll_oracle(interp, env, f, args, t, bb, path):
         return TOP
     if dk in ("alloc::vec::from_elem", "alloc::vec::spec_from_elem::SpecFromElem::from_elem") and len(args) >= 2 and isinstance(args[1], int):
         return new_vec(interp, [args[0]] * args[1])
+    if dk in ("core::iter::traits::collect::FromIterator::from_iter",) and args and (f.get("ret") or "").startswith("alloc::vec::Vec<"):
+        src = load(interp, env, args[0])
+        if isinstance(src, Agg) and src.name in ("core::ops::range::Range", "core::ops::range::RangeInclusive") and all(isinstance(x, int) and not isinstance(x, bool) for x in src.fields[:2]):
+            hi = src.fields[1] + (1 if src.name.endswith("Inclusive") else 0)
+            return new_vec(interp, list(range(src.fields[0], hi)))
+        its = iter_items(interp, env, args[0])
+        if its is None:
+            return TOP
+        return new_vec(interp, its)
     if nm in ("box_assume_init_into_vec_unsafe", "into_vec") and args:
         a = load(interp, env, args[0])
         if isinstance(a, Agg) and a.kind in ("array", "tuple"):
@@ -823,6 +832,20 @@ def coll_oracle(interp, env, f, args, t, bb, path):
                 if nm == "any" and r:
                     return True
             return res
+        if nm == "try_for_each" and len(args) == 2:
+            ret = f.get("ret") or ""
+            for x in it.items:
+                r = _call1(interp, args[1], [x])
+                if not (isinstance(r, Agg) and r.variant in ("Ok", "Some", "Err", "None", "Continue", "Break")):
+                    return TOP
+                if r.variant in ("Err", "None", "Break"):
+                    return r
+            from absint import ok as _ok3
+            if ret.startswith("core::result::Result"):
+                return _ok3(unit)
+            if ret.startswith("core::option::Option"):
+                return some(unit)
+            return TOP
         if nm == "for_each" and len(args) == 2:
             for x in it.items:
                 if _call1(interp, args[1], [x]) is None:
